@@ -5,7 +5,10 @@ UNITS = [
     U("C05.sha256_write", ["C05"], "harness/C05/hash_write.c", "h_write", assumed=ORACLE,
       functions=["secp256k1_sha256_write"], timeout=600, min_obl=50, unwind=130, replay=False,
       note="stream lemma: len fully symbolic (<= 2^48), bytes symbolic; compression abstracted by the logging oracle"),
-    U("C05.sha256_write_split", ["C05"], "harness/C05/hash_write.c", "h_write2", assumed=ORACLE,
+    U("C05.sha256_write_contract", ["C05"], "harness/C05/hash_write.c", "h_write_c", assumed=ORACLE,
+      enforce=["secp256k1_sha256_write"], functions=["secp256k1_sha256_write"], timeout=600, min_obl=50, unwind=130, replay=False,
+      note="the stream lemma as a DFCC-enforced contract (hash_spec.h), arbitrary initial log state; consumed by the lemma units"),
+    U("C05.sha256_write_split", ["C05"], "harness/C05/hash_write.c", "h_write2", replace=["secp256k1_sha256_write"],
       functions=["secp256k1_sha256_write"], timeout=600, min_obl=50, unwind=130, replay=False,
-      note="two-write lemma on the real code: write(a);write(b) delivers the same blocks/tail/count as write(a||b), all la, lb"),
+      note="two-write lemma over the enforced stream contract: write(a);write(b) has the stream postcondition of write(a||b), all la, lb, bytes"),
 ]
